@@ -4,16 +4,6 @@
    Not part of the common build: compiled by ./check C01 before GenC01.v. *)
 From Verif Require Import Base Seq ListImpl ListMachine SeqProofs MiniGo GenSrc GenRep GenLib GenIter GenSeq.
 
-(* rewrite the call of GetSize / IsEmpty / AsArray / GetIterator on an operand that is in head position *)
-Ltac op_size OP := match goal with |- context[i_call (interp_at _ _ _ _ ?FF) ?sv id_GetSize []] =>
-  rewrite (proj1 (OP FF ltac:(lia))) end.
-Ltac op_empty OP := match goal with |- context[i_call (interp_at _ _ _ _ ?FF) ?sv id_IsEmpty []] =>
-  rewrite (proj1 (proj2 (OP FF ltac:(lia)))) end.
-Ltac op_array OP := match goal with |- context[i_call (interp_at _ _ _ _ ?FF) ?sv id_AsArray []] =>
-  rewrite (proj1 (proj2 (proj2 (OP FF ltac:(lia))))) end.
-Ltac op_iter OP := match goal with |- context[i_call (interp_at _ _ _ _ ?FF) ?sv id_GetIterator []] =>
-  rewrite (proj2 (proj2 (proj2 (OP FF ltac:(lia))))) end.
-
 Ltac loop_enter F K := rewrite loop_S; unfold loop_step; fuel F K.
 
 Set Warnings "-unused-intro-pattern".
@@ -22,6 +12,7 @@ Variable A : Type.
 Variable zero : A.
 Variable ext : ident -> ident -> val A -> list (val A) -> option (val A).
 Notation call_at F := (i_call (interp_at A zero ext prog F)).
+Notation seq_operand := (seq_operand A zero ext).
 Notation run_method := (MiniGo.run_method A zero ext prog).
 
 (* ---------- array.GetValues(first, last): v[first : last+1] copied into a fresh array ---------- *)
@@ -65,25 +56,6 @@ Proof.
     assert (LR : length (elems r) = b + 1 - a).
     { rewrite elems_length. unfold r. rewrite firstn_length, skipn_length. lia. }
     rewrite <- LR at 1. rewrite zcopy_exact. gorun. reflexivity.
-Qed.
-
-(* ---------- operands: any sequence that answers GetSize / IsEmpty / AsArray / GetIterator like [src] ---------- *)
-Definition seq_operand (sv : val A) (src : list A) : Prop :=
-  forall F, 40 <= F ->
-    call_at F sv id_GetSize [] = ROk (VInt (Z.of_nat (length src)), sv) /\
-    call_at F sv id_IsEmpty [] = ROk (VBool (length src =? 0), sv) /\
-    call_at F sv id_AsArray [] = ROk (VSlice (elems src), sv) /\
-    call_at F sv id_GetIterator [] = ROk (it_rep A VNil (it_make src), sv).
-
-Lemma seq_operand_arr src : (Z.of_nat (length src) < two63)%Z -> seq_operand (arr_val src) src.
-Proof.
-  intros HL F HF. rewrite (gen_array_GetSize A zero ext), (gen_array_IsEmpty A zero ext),
-    (gen_array_AsArray A zero ext), (gen_array_GetIterator A zero ext) by (assumption || lia). repeat split.
-Qed.
-Lemma seq_operand_lst n src : (Z.of_nat (length src) < two63)%Z -> seq_operand (lst_val n src) src.
-Proof.
-  intros HL F HF. rewrite (gen_list_GetSize A zero ext), (gen_list_IsEmpty A zero ext),
-    (gen_list_AsArray A zero ext), (gen_list_GetIterator A zero ext) by (assumption || lia). repeat split.
 Qed.
 
 (* ---------- array.SetValues(index, values): copy(v[first:last], values.AsArray()) ---------- *)
